@@ -438,6 +438,12 @@ def especStep (c : ECfg) (st : ESpec) : EOp → ESpec
         | none => st
       | none => st
     else st
+  | .raw i p =>
+    -- a write through the `agent_positions` view: no validation, the value as it is becomes the position of the
+    -- i-th agent of the space
+    match st.members[i]? with
+    | some a => { st with pos := upd st.pos a (some p) }
+    | none => st
 
 def espec (c : ECfg) (ops : List EOp) : ESpec :=
   ops.foldl (especStep c) ⟨[], fun _ => none, fun _ => false⟩
@@ -559,6 +565,27 @@ theorem estep_refines {c : ECfg} {s : ESpace} {st : ESpec} (h : ERef c s st)
     · obtain ⟨e, he⟩ := agentIadd_of_not_mem hi (a := a) (by rw [hact]; exact ha) v
       simp only [he, ha, if_false]
       exact h0
+  | raw i p =>
+    simp only [estep, especStep, rawWrite]
+    cases hm : st.members[i]? with
+    | none =>
+      have : ¬ i < s.view := by
+        rw [hi.view, hi.len, hact]; exact Nat.not_lt.mpr (List.getElem?_eq_none_iff.mp hm)
+      simp only [this, if_false]
+      exact h0
+    | some a =>
+      have hidx : s.a2i a = some i := (hi.idx a i).mpr (by rw [hact]; exact hm)
+      have hlt : i < s.view := by rw [hi.view]; exact hi.lt hidx
+      simp only [hlt, if_true]
+      refine ⟨einv_set hi i p, hc, hact, ?_, ?_, hgone⟩
+      · intro b q hb
+        rw [getPos_set hi hidx]
+        by_cases hba : b = a
+        · simp [upd, hba] at hb; simp [hba, hb]
+        · simp only [upd, hba, if_false] at hb ⊢; exact hpos b q hb
+      · intro b hb
+        have hba : b ≠ a := by rintro rfl; exact hb (List.mem_of_getElem? hm)
+        simp only [upd, hba, if_false]; exact hout b hb
 
 theorem efold_refines {c : ECfg} (ops : List EOp) {s : ESpace} {st : ESpec}
     (h : ERef c s st) : ERef c (ops.foldl estep s) (ops.foldl (especStep c) st) := by
@@ -838,12 +865,13 @@ theorem eassign_inBounds (c : ECfg) (hw : c.WF) {p p' : Pos} (h : eassign c p = 
 
 /-! ### frame, agent-centred queries, agent subsets -/
 
-/-- the agent a call is about -/
-def EOp.target : EOp → Aid
-  | .new a => a
-  | .set a _ => a
-  | .remove a => a
-  | .iadd a _ => a
+/-- the agent a call is about (for a write through the view: the agent whose row it is, if any) -/
+def EOp.target (s : ESpace) : EOp → Option Aid
+  | .new a => some a
+  | .set a _ => some a
+  | .remove a => some a
+  | .iadd a _ => some a
+  | .raw i _ => s.active[i]?
 
 theorem getPos_assign_frame {s : ESpace} (h : EInv s) (b : Aid) (p : Pos) {a : Aid} (hba : a ≠ b) :
     getPos (match setPos s b p with | .ok s' => s' | .error _ => s) a = getPos s a := by
@@ -853,7 +881,7 @@ theorem getPos_assign_frame {s : ESpace} (h : EInv s) (b : Aid) (p : Pos) {a : A
   · simp only [he]; rw [getPos_set h hidx]; simp [hba]
 
 theorem getPos_estep_frame {s : ESpace} (h : EInv s) (op : EOp) {a : Aid} (ha : a ∈ s.active)
-    (hne : op.target ≠ a) : getPos (estep s op) a = getPos s a := by
+    (hne : op.target s ≠ some a) : getPos (estep s op) a = getPos s a := by
   cases op with
   | new b =>
     simp only [estep]
@@ -891,6 +919,16 @@ theorem getPos_estep_frame {s : ESpace} (h : EInv s) (op : EOp) {a : Aid} (ha : 
     | some i =>
       rw [agentIadd_of_idx h hb]
       exact getPos_assign_frame h b _ hba
+  | raw i p =>
+    simp only [estep, rawWrite]
+    by_cases hlt : i < s.view
+    · simp only [hlt, if_true]
+      have hl : i < s.active.length := by rw [← h.len, ← h.view]; exact hlt
+      have hb : s.active[i]? = some s.active[i] := List.getElem?_eq_getElem hl
+      have hidx : s.a2i s.active[i] = some i := (h.idx _ i).mpr hb
+      have hba : a ≠ s.active[i] := fun e => hne (by simp [EOp.target, e])
+      rw [getPos_set h hidx]; simp [hba]
+    · simp [hlt]
 
 theorem length_filter_ne_of_nodup (l : List (Aid × Int)) (a : Aid) (hn : (l.map (·.1)).Nodup)
     (ha : a ∈ l.map (·.1)) : (l.filter (fun ad => ad.1 ≠ a)).length + 1 = l.length := by
